@@ -293,6 +293,33 @@ func c09Run(e *core.Env) {
 			report(op, x, nil, p0, cls, triv, msg)
 		}
 	}
+	// NEAR-2^128 family: exact rescaling by 1..19 places whose product crosses 2^128 (or 2^64): Quantize to a
+	// smaller exponent and RoundToIntegral of a positive exponent, at precisions that let the product through
+	var nctx []CtxCase
+	for _, p := range []uint32{39, 40, 45} {
+		for _, m := range Modes8 {
+			nctx = append(nctx, MkCtx(p, -6143, 6144, m, 0))
+		}
+	}
+	for ni, nk := range Near128() {
+		if !e.Mine(int64(ni)) {
+			continue
+		}
+		e.State()
+		for _, neg := range []bool{false, true} {
+			x := FinBig(nk.A, 0, neg)
+			xp := FinBig(nk.A, int32(nk.K), neg)
+			for _, cc := range nctx {
+				q := int32(-nk.K)
+				cls, triv, msg := c09Quantize(x, q, cc)
+				report("Quantize", x, &q, cc, cls+"-near2^128", triv, msg)
+				for _, op := range []string{"RoundToIntegralValue", "RoundToIntegralExact"} {
+					cls, triv, msg := c09ToIntegral(op, xp, cc)
+					report(op, xp, nil, cc, cls+"-near2^128", triv, msg)
+				}
+			}
+		}
+	}
 	// FAR family: operands whose exponent lies up to 200000 below (or above) the target exponent
 	// while both are legal on their own - every digit is discarded across more than the package
 	// exponent span ("values far below one unit of 10^e")
@@ -359,9 +386,9 @@ func init() {
 		Rule:  "every (x, target exponent, context, rounding mode) point is executed and compared with an exact integer oracle (x/10^e rounded by the GDA decision table from the exact quotient and remainder); RoundToIntegralValue/Exact, Ceil and Floor on the same x; non-trivial = digits dropped, invalid, or a fractional operand",
 		Bounds: func(tier string) string {
 			if tier == "thorough" {
-				return "x in DENSE(4,7) + EDGE + LONG (129-300 digits); e in [-9,7] + {Etiny-1, Etiny, Emax, Emax+1}; p in {1,2,3,4,5,7} x 11 exponent ranges x 8 modes; Ceil/Floor also at precision 0"
+				return "x in DENSE(4,7) + EDGE + LONG (129-300 digits); e in [-9,7] + {Etiny-1, Etiny, Emax, Emax+1}; p in {1,2,3,4,5,7} x 11 exponent ranges x 8 modes; Ceil/Floor also at precision 0; NEAR-2^128 (exact rescaling by 1..19 places across 2^64 / 2^128, p in {39,40,45}) and FAR (exponents up to 200000 apart) families"
 			}
-			return "x in DENSE(3,5) + EDGE + LONG (129-300 digits); e in [-9,7] + {Etiny-1, Etiny, Emax, Emax+1}; p in {1,2,3} x 6 exponent ranges x 8 modes; Ceil/Floor also at precision 0"
+			return "x in DENSE(3,5) + EDGE + LONG (129-300 digits); e in [-9,7] + {Etiny-1, Etiny, Emax, Emax+1}; p in {1,2,3} x 6 exponent ranges x 8 modes; Ceil/Floor also at precision 0; NEAR-2^128 (exact rescaling by 1..19 places across 2^64 / 2^128, p in {39,40,45}) and FAR (exponents up to 200000 apart) families"
 		},
 		Run:    c09Run,
 		Replay: c09Replay,
